@@ -410,11 +410,10 @@ func errorsEmptyTest(info *types.Info, cond ast.Expr) (bool, bool) {
 
 // txnSourceTable: functions of internal/db that may create a transaction themselves.
 var txnSourceTable = map[string]string{
-	"internal/db.ensureContextTxn":           "the one place API calls obtain their transaction",
-	"internal/db.(*DB).handleSubscription":   "evaluates a subscription in its own read transaction after the triggering commit",
-	"internal/db.(*DB).NewConcurrentTxn":     "public constructor",
-	"internal/db.(*DB).NewTxn":               "public constructor",
-	"internal/db.(*collection).GetAllDocIDs": "",
+	"internal/db.ensureContextTxn":         "the one place API calls obtain their transaction",
+	"internal/db.(*DB).handleSubscription": "evaluates a subscription in its own read transaction after the triggering commit",
+	"internal/db.(*DB).NewConcurrentTxn":   "public constructor",
+	"internal/db.(*DB).NewTxn":             "public constructor",
 }
 
 func ruleTxnSource(c *eng.Ctx) {
